@@ -124,6 +124,8 @@ func init() {
 			}},
 		Rule{ID: "C02.h", Explain: "no verdict-relevant state is carried from one verification to the next inside a proof object: every field of ProofD, ProofU, revocation.Proof or rangeproof.Proof that some function in the call tree of ProofList.Verify / ProofD.Verify / ProofU.Verify writes is, wherever that call tree reads it, preceded on every path from the entry point by a write of the same invocation (a memo read before it is recomputed would make the verdict depend on the keys, context or nonce of an earlier call).",
 			Run: func(P *Program, R *Report) { noCrossCallStateRule(P, R) }},
+		Rule{ID: "C02.i", Explain: "aliasing discipline: verification leaves the proofs of a list unchanged - no function mutates in place a big.Int it reached through gabi.ProofD / gabi.ProofU / gabi.ProofS (math/big mutators write their receiver), except the tabled merge/refresh functions.",
+			Run: func(P *Program, R *Report) { inPlaceDisciplineRule(P, R, "C02.i", "gabi.ProofD", "gabi.ProofU", "gabi.ProofS") }},
 		Rule{ID: "C02.e", Explain: "ProofU.ChallengeContribution = [U, Ucommit] with Ucommit data-dependent on U, C, VPrimeResponse, SResponse, every MUserResponses value, pk.S, pk.R[0], pk.R[i], pk.N (ProofD: C01.e).",
 			Run: func(P *Program, R *Report) { proofUContributionDeps(P, R, "C02.e") }},
 		Rule{ID: "C02.f", Explain: "every challenge of the showing/issuance protocol goes through createChallenge with the caller's own context/nonce/flag in their roles (table of 6 call sites).",
